@@ -40,7 +40,7 @@ TSpec == TInit /\ [][TNext]_tvars
 
 Accepted == /\ l = Len(Runs[r].events) + 1
             /\ AllDone
-            /\ \A th \in Thread : result[th] = Runs[r].results[th]
+            /\ \A th \in Thread : result[th] = Runs[r].results[th] /\ rdata[th] = Runs[r].data[th]
 
 \* progress registers: the furthest event matched per run (workers = 1)
 Note == /\ (TLCGet(r) < l => TLCSet(r, l))
